@@ -158,6 +158,9 @@ def run(ck: Checker):
     ck.rule('C07.PLACEHOLDER', 'lists pre-filled with the placeholder label are completely overwritten before they are returned (abstract execution over operand sizes, callee results abstracted)')
     gadget_rules(ck, B)
     ck.floor('C07.GADGET', 7)
+    ck.rule('C07.FOLD', 'the loop-only branch of the shifted adder (shift >= len(a)) instantiated for small widths and shifts: the result decodes to a + b * 2^shift on len(b) + shift bits, both endiannesses')
+    fold_shift_branch(ck, B)
+    worklist_rule(ck)
     n_ts = basis_rules(ck, [SUM], public)
     ck.need(n_ts >= 5, f'only {n_ts} basis comparisons found in summation.py (5 confirmed)')
     ck.floor('C07.BASIS-REACH', 10)
@@ -173,3 +176,67 @@ def run(ck: Checker):
     ck.need(n >= 2, f'only {n} placeholder-using functions of summation.py could be analysed (2 confirmed)')
     ck.assume('level bookkeeping, distinct levels, the sum identity of composed circuits and the gate-count bounds are not decided')
     ck.assume('emplace_gate/add_gate refuse existing labels (C02.VALID), so only fresh gates are added and pre-existing gates keep their function')
+
+
+def fold_shift_branch(ck: Checker, B):
+    from ..interp import InterpRaise
+    from .. import semantics
+    m = ck.repo.mod(SUM)
+    fn = m.func('add_sum_two_numbers_with_shift')
+
+    def num(bits, be):
+        bits = list(bits)
+        if be:
+            bits.reverse()
+        return sum(int(b) << i for i, b in enumerate(bits))
+
+    probs = []
+    n_cases = 0
+    for n in (1, 2):
+        for mm in (1, 2):
+            for shift in range(n, n + 4):
+                for be in (False, True):
+                    n_cases += 1
+                    try:
+                        c, names = B.host(n + mm)
+                        res = B.run(SUM, 'add_sum_two_numbers_with_shift', c, shift, list(names[:n]), list(names[n:]), big_endian=be)
+                    except InterpRaise as e:
+                        probs.append(f'widths {n},{mm} shift {shift} big_endian={be}: raises {e.exc_name}')
+                        continue
+                    bad = [r for r in res if r not in c._gates]
+                    if bad:
+                        probs.append(f'widths {n},{mm} shift {shift}: result names missing gates {bad}')
+                        continue
+                    for vals in semantics.bools(n + mm):
+                        a = dict(zip(names, vals))
+                        A, Bv = num(vals[:n], be), num(vals[n:], be)
+                        got = num([c.evaluate(r, a) for r in res], be)
+                        if got != A + (Bv << shift) or len(res) != mm + shift:
+                            probs.append(f'widths {n},{mm} shift {shift} big_endian={be}: {A} + {Bv}*2^{shift} gives {got} on {len(res)} bits')
+                            break
+    ck.check(not probs, 'C07.FOLD', m, fn, f'add_sum_two_numbers_with_shift with shift >= len(a): a + b * 2^shift ({n_cases} instances)', '; '.join(probs[:3]),
+             construct='add_sum_two_numbers_with_shift large-shift branch')
+
+
+def worklist_rule(ck: Checker, rule='C07.WORKLIST'):
+    """Level-by-level summation keeps pending bits in sorted work lists guarded by a sentinel; a work list that
+    receives new items inside the loop must take part in the loop condition, otherwise pending items are dropped."""
+    ck.rule(rule, 'every sentinel-guarded work list that receives items inside the level loop occurs in the loop condition (pending carries are never abandoned)')
+    m = ck.repo.mod(SUM)
+    n = 0
+    for q, fn in m.functions.items():
+        if '.' in q:
+            continue
+        lists = {t.id for node in ast.walk(fn) if isinstance(node, ast.Assign) and isinstance(node.value, ast.Call) and call_name(node.value) == 'SortedList'
+                 for t in node.targets if isinstance(t, ast.Name)}
+        if not lists:
+            continue
+        for w in [x for x in fn.body if isinstance(x, ast.While)]:
+            n += 1
+            fed = {c.func.value.id for c in calls_in(w) if isinstance(c.func, ast.Attribute) and c.func.attr == 'add' and isinstance(c.func.value, ast.Name) and c.func.value.id in lists}
+            in_test = {x.id for x in ast.walk(w.test) if isinstance(x, ast.Name)}
+            missing = sorted(fed - in_test)
+            ck.check(not missing, rule, m, w, f'{q}: the level loop runs while any fed work list still holds items',
+                     f'work list(s) {missing} receive items inside the loop but the loop condition `{norm(w.test)}` ignores them: the loop can stop while carried bits are still pending and the top result bits are dropped',
+                     construct=f'{q} level loop condition')
+    ck.need(n >= 2, f'only {n} work-list loops found in summation.py (2 confirmed)')
